@@ -66,6 +66,13 @@ def cases(seed, tier):
             p['pad_extra'] = rng.randrange(0, 31)
             p['pad_byte'] = rng.choice([0, 0xff, 0x41, rng.randrange(256)])
         c = {'kind': 'ssh2', 'profile': p, 'net': gen.rand_net(rng), 'knobs': gen.rand_knobs(rng), 'pseed': rng.getrandbits(32)}
+        r4 = gen.case_rng(seed, ID, i, 'directions')
+        if r4.random() < 0.25:
+            # a KEXINIT whose two directions differ: what the tool echoes in its probe KEXINITs is what it decoded as the
+            # server-to-client lists (both directions of the probe carry them)
+            for cat in r4.choice([['enc'], ['mac'], ['enc', 'mac', 'comp']]):
+                pool = ['none', 'zlib', 'zlib@openssh.com'] if cat == 'comp' else [n for n in gen.db_names(cat) if not n.endswith('-*')]
+                p[cat + '_c2s'] = r4.sample(pool, r4.randrange(1, min(4, len(pool)) + 1))
         r3 = gen.case_rng(seed, ID, i, 'reset')
         if r3.random() < 0.25:
             # the peer resets one probe connection at a seeded moment (a write of the tool then fails): every packet the tool emits
